@@ -143,6 +143,8 @@ def run(repo: Repo, rep: Report, tier: str) -> None:
             if not relevant:
                 continue
             args = list(c.args) + [k.value for k in c.keywords]
+            if name in ("shutil.copy", "shutil.copy2", "shutil.copyfile", "shutil.copytree") and len(c.args) >= 2:
+                args = list(c.args[1:]) + [k.value for k in c.keywords if k.arg != "src"]  # the source is only read
             recv = c.func.value if isinstance(c.func, ast.Attribute) else None
             offenders = [a for a in args if is_real(a)]
             if recv is not None and meth in SINK_METHODS | {"emit", "run"} and is_real(recv):
@@ -219,7 +221,8 @@ def run(repo: Repo, rep: Report, tier: str) -> None:
                     path_expr = c.args[0] if name == "open" and c.args else (c.func.value if meth == "open" else None)
                     kind = f"open(mode={mode!r})"
                 elif name in SINK_FUNCS:
-                    path_expr = c.args[1] if name == "json.dump" and len(c.args) > 1 else (c.args[0] if c.args else None)
+                    dst_second = name in ("json.dump", "shutil.copy", "shutil.copy2", "shutil.copyfile", "shutil.copytree", "shutil.move", "os.rename", "os.replace")
+                    path_expr = c.args[1] if dst_second and len(c.args) > 1 else (c.args[0] if c.args else None)
                     kind = name
                     if name == "json.dump":
                         continue  # the target is an already-open file object: covered by its open()
